@@ -31,6 +31,9 @@ def run(ctx) -> None:
     ctx.guard("C08.id-template", id_templates)
     ctx.guard("C08.id-template", grid_construction)
     ctx.guard("C08.id-template", id_width)
+    from .common import memo_rule
+
+    ctx.guard("C08.no-cache", memo_rule, "C08.no-cache", ("transform.py", "liquidhandling/labware.py", "evotools/utils.py", "fluenttools/utils.py"))
     ctx.guard("C08.unknown-well", unknown_well)
 
 
